@@ -171,6 +171,28 @@ ROUND9 = {
 for _k, _v in ROUND9.items():
     TABLE[_k]['text'] += '; round 9: ' + _v
 
+ROUND10 = {
+ 'C01': 'payloads nested 9-40 containers deep',
+ 'C02': 'bursts of up to 300 outstanding callbacks; a handler that itself waits for an acknowledgement handled by another thread (thread scheduler, both sides)',
+ 'C03': 'connect handlers that crash; an emit abandoned by its awaiting coroutine',
+ 'C05': 'an event literally named "*"',
+ 'C06': 'acknowledgements bearing ids of an ended session after a failing disconnect handler; ids never reissued',
+ 'C07': 'relay tokens never issued twice at the publishing side',
+ 'C08': 'connect() with an empty namespace list; connect() again after a late CONNECT answer of the lost connection',
+ 'C09': 'the server ending one namespace in mid-history; a second connection receiving acknowledgements of the first',
+ 'C10': 'the transport closed right after the server\'s last DISCONNECT; shutdown() while an attempt is in flight, then a further loss',
+ 'C11': 'threaded: an emit with a callback racing the recipient\'s departure, statement-level schedules (known finding emit-callback-filed-after-the-recipient-departed)',
+ 'C12': 'threaded: application emits and bystander arrivals / departures racing a busy offender, statement-level schedules',
+ 'C13': 'class namespaces registered after function handlers; methods inherited from mixins or added later',
+ 'C14': 'disconnect handlers that look the environ up; a call() answered at its second emission',
+ 'C15': 'application callbacks that use the manager again from inside the listener; JSON delivered as bytes',
+ 'C16': 'mapping objects as sessions; sessions asked for under the wrong namespace',
+ 'C17': 'underlying methods that raise, CancelledError included',
+ 'C19': 'a receive() blocked at the final end; non-blocking polls after the end',
+}
+for _k, _v in ROUND10.items():
+    TABLE[_k]['text'] += '; round 10: ' + _v
+
 
 def main():
     checks = []
